@@ -11,13 +11,15 @@ demo = f"{wt}/seed/demo{n}.py"
 def sh(cmd, **kw):
     return subprocess.run(cmd, shell=True, capture_output=True, text=True, **kw)
 sh(f"git -C {wt} checkout -- stackscope")
-r0 = sh(f"cd /tmp && PYTHONPATH={wt} /venv/bin/python {demo}")
+DEMO_PY = os.environ.get("SEED_DEMO_PY", "/venv/bin/python")          # some seeds only manifest on an older interpreter
+DEMO_PP = wt + (":" + os.environ["SEED_DEMO_EXTRA_PATH"] if os.environ.get("SEED_DEMO_EXTRA_PATH") else "")
+r0 = sh(f"cd /tmp && PYTHONPATH={DEMO_PP} {DEMO_PY} {demo}")
 assert r0.returncode == 0, ("demo fails on clean tree", r0.stdout[-500:], r0.stderr[-500:])
 a = sh(f"git -C {wt} apply {diff}")
 assert a.returncode == 0, a.stderr
 t = sh(f"cd {wt} && /venv/bin/python -m pytest -q -p no:cacheprovider --timeout=900")
 tests = t.stdout.strip().splitlines()[-1]
-r1 = sh(f"cd /tmp && PYTHONPATH={wt} /venv/bin/python {demo}")
+r1 = sh(f"cd /tmp && PYTHONPATH={DEMO_PP} {DEMO_PY} {demo}")
 sh(f"git -C {wt} checkout -- stackscope")
 assert "52 passed" in tests, tests
 assert r1.returncode != 0, "demo passes with the change"
@@ -44,6 +46,7 @@ finally:
 meta = dict(id=sid, property=prop, needs=needs, source="independent sub-agent (saw only the property text and a scratch worktree)",
             confirmed=dict(tests_with_change=tests, demo_with_change_exit=r1.returncode, demo_without_change_exit=r0.returncode,
                            demo_failure=(r1.stderr or r1.stdout).strip().splitlines()[-1][:300]),
+            demo_interpreter=DEMO_PY,
             ran=[f"git apply patch.diff (scratch worktree); pytest -> {tests}; demo.py -> exit {r1.returncode}; reverted; demo.py -> exit 0",
                  "patch applied to a scratch copy of /repo/stackscope; PYVC_REPO=<copy> ./check <id>; copy removed"],
             detection=det)
